@@ -271,6 +271,7 @@ func normVal(v string) string {
 // ---- pool ----
 
 type SolverPool struct {
+	all   []*Solver
 	mu    sync.Mutex
 	idle  map[string][]*Solver
 	stats struct {
@@ -297,7 +298,13 @@ func (p *SolverPool) get(k SolverKind) (*Solver, error) {
 		return s, nil
 	}
 	p.mu.Unlock()
-	return startSolver(k)
+	s, err := startSolver(k)
+	if err == nil {
+		p.mu.Lock()
+		p.all = append(p.all, s)
+		p.mu.Unlock()
+	}
+	return s, err
 }
 
 func (p *SolverPool) put(s *Solver) {
@@ -312,11 +319,12 @@ func (p *SolverPool) put(s *Solver) {
 func (p *SolverPool) closeAll() {
 	p.mu.Lock()
 	defer p.mu.Unlock()
-	for _, l := range p.idle {
-		for _, s := range l {
+	for _, s := range p.all {
+		if !s.dead {
 			s.kill()
 		}
 	}
+	p.all = nil
 	p.idle = map[string][]*Solver{}
 }
 
@@ -426,10 +434,10 @@ func (p *SolverPool) Solve(asserts []*Term, timeoutMs int, portfolio []SolverKin
 		last = r
 	}
 	type cand struct {
-		k        SolverKind
-		sc       string
-		model    bool
-		label    string
+		k         SolverKind
+		sc        string
+		model     bool
+		label     string
 		onlyUnsat bool
 	}
 	cands := []cand{{kindZ3, script, true, "", false}}
